@@ -1,5 +1,5 @@
-(* C46  Code-shaped model of stdlib/rlp/rlp.go (ReadSize, DecodeString, DecodeList) and of the
-   Cadence wrappers stdlib/rlp.go (RLPDecodeString, RLPDecodeList).
+(* C46  Code-shaped model of stdlib/rlp/rlp.go (ReadSize, DecodeString, DecodeList), as of onflow/cadence commit
+   8b09734, and of the Cadence wrappers stdlib/rlp.go (RLPDecodeString, RLPDecodeList).
 
    Conventions
    - a Go []byte is a list of Z (each 0..255); len is Zlength-like [len];
@@ -99,19 +99,21 @@ Definition read_size (inp : list Z) (startIndex : Z) : res (bool * Z * Z) :=
     if strLen >? MaxLongLengthAllowed then Err ErrDataSizeTooLarge else
     Ok (isString, startIndex, wrap_int strLen).
 
-(* func DecodeString(inp []byte, startIndex int) (str []byte, bytesRead int, err error) *)
+(* func DecodeString(inp []byte, startIndex int) (str []byte, bytesRead int, err error)
+   (as of commit 8b09734: the range test compares sizes, before the byte at dataStartIndex is read) *)
 Definition decode_string (inp : list Z) (startIndex : Z) : res (list Z * Z) :=
   let* (isString, dataStartIndex, dataSize) := read_size inp startIndex in
   if negb isString then Err ErrTypeMismatch else
   if (dataSize =? 1) && (startIndex =? dataStartIndex) then
     let* b := idx inp dataStartIndex in Ok ([b], 1)
   else
+  (* if dataSize > len(inp)-dataStartIndex { return nil, 0, ErrIncompleteInput } *)
+  if dataSize >? wrap_int (len inp - dataStartIndex) then Err ErrIncompleteInput else
   (* dataSize == 1 && inp[dataStartIndex] <= ByteRangeEnd : && is short-circuit *)
   let* nonCanon :=
     (if dataSize =? 1 then let* b := idx inp dataStartIndex in Ok (b <=? ByteRangeEnd) else Ok false) in
   if (nonCanon : bool) then Err ErrNonCanonicalInput else
   let dataEndIndex := wrap_int (dataStartIndex + dataSize) in
-  if dataEndIndex >? len inp then Err ErrIncompleteInput else
   let* s := slice inp dataStartIndex dataEndIndex in
   Ok (s, wrap_int (dataEndIndex - startIndex)).
 
@@ -124,9 +126,16 @@ Fixpoint list_loop (fuel : nat) (inp : list Z) (listDataSize : Z)
     match fuel with
     | O => Err OutOfFuel
     | S fuel' =>
-      let* (_, itemDataStartIndex, itemSize) := read_size inp itemStartIndex in
+      let* (itemIsString, itemDataStartIndex, itemSize) := read_size inp itemStartIndex in
+      (* if itemSize > len(inp)-itemDataStartIndex { return nil, 0, ErrIncompleteInput } *)
+      if itemSize >? wrap_int (len inp - itemDataStartIndex) then Err ErrIncompleteInput else
+      (* itemIsString && itemSize == 1 && itemDataStartIndex != itemStartIndex &&
+         inp[itemDataStartIndex] <= ByteRangeEnd : && is short-circuit *)
+      let* nonCanon :=
+        (if itemIsString && (itemSize =? 1) && negb (itemDataStartIndex =? itemStartIndex)
+         then let* b := idx inp itemDataStartIndex in Ok (b <=? ByteRangeEnd) else Ok false) in
+      if (nonCanon : bool) then Err ErrNonCanonicalInput else
       let itemEndIndex := wrap_int (itemDataStartIndex + itemSize) in
-      if itemEndIndex >? len inp then Err ErrIncompleteInput else
       let* it := slice inp itemStartIndex itemEndIndex in
       let retList := retList ++ [it] in
       let dataBytesRead := wrap_int (dataBytesRead + wrap_int (itemEndIndex - itemStartIndex)) in
@@ -141,7 +150,8 @@ Definition decode_list (inp : list Z) (startIndex : Z) : res (list (list Z) * Z)
   if isString then Err ErrTypeMismatch else
   let retList := [] in
   if listDataSize =? 0 then Ok (retList, 1) else
-  if wrap_int (listDataSize + dataStartIndex) >? len inp then Err ErrIncompleteInput else
+  (* if listDataSize > len(inp)-dataStartIndex { return nil, 0, ErrIncompleteInput } *)
+  if listDataSize >? wrap_int (len inp - dataStartIndex) then Err ErrIncompleteInput else
   let itemStartIndex := dataStartIndex in
   (* every iteration that does not return advances itemStartIndex by at least one byte within inp
      (proved: C46/Proofs.v list_loop_err: OutOfFuel is never returned), so len(inp)+1 iterations always suffice *)
